@@ -120,7 +120,7 @@ def gen(ctx):
         if i % 3 == 2:
             c['heldopen'] = True
         # a call with ONE subarray is made through append() half of the time (it has its own entry point)
-        if len(c['ops'][0]['items']) == 1 and i % 2 == 0:
+        if len(c['ops'][0]['items']) == 1 and i % 2 == 0 and c['ops'][0]['items'][0].get('kind') != 'raise':
             c['ops'][0] = dict(c['ops'][0], op='append')
     return cases
 
